@@ -81,6 +81,8 @@ class Evaluator:
                 if st.alo == st.ahi:
                     return C(st.alo)
                 return ("sym", "avail")
+            if key == "this.m_p":
+                return ("ptr", 0)           # the cursor as a pointer value: offset 0 from itself
             if key in st.locals:
                 return st.locals[key]
             raise Unknown("value of %s" % key)
@@ -109,6 +111,11 @@ class Evaluator:
                 return C(1 if r else 0)
             a, b = self.ev(e["lhs"], st, depth + 1), self.ev(e["rhs"], st, depth + 1)
             t = (e.get("t") or "").replace("const ", "")
+            # pointer arithmetic on the cursor: m_p + n, (m_p + n) - k
+            if isinstance(a, tuple) and a and a[0] == "ptr" and is_c(b) and op in ("+", "-"):
+                return ("ptr", a[1] + (b[1] if op == "+" else -b[1]))
+            if isinstance(b, tuple) and b and b[0] == "ptr" and is_c(a) and op == "+":
+                return ("ptr", b[1] + a[1])
             if is_c(a) and is_c(b):
                 fake = {"k": "Bin", "op": op, "t": t, "lhs": {"k": "Lit", "v": a[1]}, "rhs": {"k": "Lit", "v": b[1]}}
                 try:
@@ -305,10 +312,21 @@ class Evaluator:
         lhs = unwrap(u["lhs"])
         op = u["op"]
         # store through the cursor
-        if isinstance(lhs, dict) and lhs.get("k") == "Index" and path(lhs.get("base")) == ("this", "m_p"):
+        base_off = None
+        if isinstance(lhs, dict) and lhs.get("k") == "Index":
+            try:
+                bv = self.ev(lhs.get("base"), st)
+            except Unknown:
+                bv = None
+            if isinstance(bv, tuple) and bv and bv[0] == "ptr":
+                base_off = bv[1]            # m_p itself, or a local pointer computed from it (`last = m_p + n; last[-1] = ..`)
+        if base_off is not None:
             idx = self.ev(lhs["idx"], st)
             if not is_c(idx) or op != "=":
                 raise Unknown("store at an index that is not decided")
+            idx = C(idx[1] + base_off)
+            if idx[1] < 0:
+                raise Unknown("store in front of the cursor")
             if idx[1] in st.stores:
                 raise Unknown("m_p[%d] stored twice" % idx[1])
             st.stores[idx[1]] = self.ev(u["rhs"], st)
